@@ -21,7 +21,7 @@ CHECKS = {
         level="model_checking", engine="seq+sched",
         technique="explicit-state BFS over all offer sequences on the real ChannelMapping; stateless DFS over goroutine schedules (deviation-bounded) of the real channel manager's concurrent collection starts with the assignment table observed at every scheduling point",
         text="Every offer sequence up to the depth bound, for every channel-count pair up to the size bound, is executed on the real util.ChannelMapping with the channel manager's own call protocol; the invariant (one image per key, images never change, load <= ceil(larger/smaller), injective for equal counts, quota leaves room for every key) is evaluated in every reached state.",
-        note="Bounded: channel counts <= 5 (6 thorough), offers <= 6 (8). The protocol driver of the mapping part mirrors startReadChannel/waitChannel; the manager part runs the real channel manager under the schedule explorer (placement scenarios up to 3:2 / 2:3 channels, collections started concurrently, <= 2 (3) deviations) and reads the assignment table at every scheduling point.",
+        note="Bounded: channel counts <= 5 (6 thorough), offers <= 6 (8). The protocol driver of the mapping part mirrors startReadChannel/waitChannel; the manager part runs the real channel manager under the schedule explorer (placement scenarios up to 3:2 / 2:3 channels and a 6:3 scenario in which a downstream channel is offered twice while two source channels wait, collections started concurrently, <= 2 (3) deviations) and reads the assignment table at every scheduling point and at the end of every execution.",
         parts=[part("mapping", "core", "util", "TestVerifC16Mapping", shards=(4, 16)),
                part("manager", "core", "reader", "TestVerifC16Manager", shards=(12, 16), budget=(150, 900), gomaxprocs=1)],
     ),
@@ -36,7 +36,7 @@ CHECKS = {
         level="model_checking", engine="seq",
         technique="explicit-state BFS over report/remove/reload histories on the real ReplicateMeteImpl, compared with a reference union after every step",
         text="Every history of shard reports, removals and reloads up to the depth bound over 2 tasks x 2 messages (collection and partition drop) and target sets of 1-3 shards is replayed on a fresh real ReplicateMeteImpl; in-memory maps, store contents, API read-back and the returned ready flag are compared with the reference union after each operation, and a reload is compared with the memory it replaces.",
-        note="Bounded: depth 7 (9 thorough), 2 tasks, 2 messages, <=3 shards; thorough adds two-shard reports. The store is an in-memory api.ReplicateStore that serialises to JSON like both real backends; store faults are not injected (not in the property's quantifier).",
+        note="Bounded: depth 7 (9 thorough), 2 tasks, 2 messages, target lists of 1-3 shards in and out of lexicographic order (dml_9 before dml_10); thorough adds two-shard reports. The store is an in-memory api.ReplicateStore that serialises to JSON like both real backends; store faults are not injected (not in the property's quantifier).",
         parts=[part("meta", "core", "meta", "TestVerifC17Meta", shards=(8, 16), budget=(150, 900))],
     ),
     "C09": dict(
@@ -71,7 +71,7 @@ CHECKS = {
         level="model_checking", engine="seq",
         technique="total enumeration of the (operation time, create time, drop time) order types x presence x level cascade x probe answers x operation kind through the real writer, against a reference decision derived from the statement",
         text="The complete decision table - every weak ordering of operation/create/drop time with each time possibly unknown, on every governing level (database, collection, partition), with every downstream probe answer and for every gated operation kind, plus the rejected-call-while-dropped path - is executed on the real ChannelWriter (tables seeded white-box) and the observed applied/skipped/failed outcome is compared with the statement's rule.",
-        note="Quick limits the database level to 6 representative states for the two 3-level kinds; thorough enumerates the full product (about 1.6M cases). Stateful create/drop/re-create histories with restarts are not yet explored as sequences (tables are seeded directly).",
+        note="Quick limits the database level to 6 representative states for the two 3-level kinds; thorough enumerates the full product (about 1.6M cases). The histories part explores stateful create/drop/re-create histories with restarts as sequences, each once without and once with a whole-database name mapping (the decision is made on tables keyed by source names).",
         parts=[part("table", "core", "writer", "TestVerifC08Table", shards=(16, 16), budget=(200, 1500)),
                part("histories", "core", "writer", "TestVerifC08Histories", shards=(16, 16), budget=(150, 1200))],
     ),
@@ -94,14 +94,14 @@ CHECKS = {
         level="exploration", engine="sched",
         technique="stateless DFS over goroutine schedules (deviation-bounded) of the real channel manager for every placement scenario",
         text="For every upstream/downstream placement scenario (renamed, differently sorted, crosswise-shared channels with forwarding, lazily learned downstream partition ids, collections created through the event; 2:1 and 1:2 channel counts in thorough) every start order and schedule within the deviation bound is executed on the real channel manager and each emitted message's ids, shard name, arrival channel and positions are compared with an independently computed pairing.",
-        note="Placements are the listed scenarios (2 collections x 2 shards at most); <= 2 deviations (3 thorough). Downstream ids come from the fake TargetAPI, which applies create events the way the writer would.",
+        note="Placements are the listed scenarios (2 collections x 2 shards at most; channel names in a prefix relation, dml_1 / dml_10, included); <= 2 deviations (3 thorough). Downstream ids come from the fake TargetAPI, which applies create events the way the writer would.",
         parts=[part("routing", "core", "reader", "TestVerifC02Routing", shards=(12, 16), budget=(150, 900), gomaxprocs=1)],
     ),
     "C03": dict(
         level="exploration", engine="sched",
         technique="stateless DFS over goroutine schedules (deviation-bounded) including the computed-vs-enqueued window, on the real channel manager and TS manager",
         text="Streams multiplexed on one downstream channel with clock skew are run through the real handlers and TS manager under every schedule within the deviation bound over the yield points that separate collecting the begin timestamp, taking the channel lock, and enqueueing the computed pack; the emitted sequence per downstream channel is checked for tick-terminated packs, monotone ticks, data strictly after earlier ticks, internal timestamp agreement and preserved per-shard order.",
-        note="Bounds: 2 streams x <= 3 packs, skew in {0,+1ms,+1s,-0.5s}, <= 2 deviations (3 thorough). The overtake defect (a pack computed earlier but enqueued later) is a recorded known finding; resume from persisted checkpoints is checked in the C05 fullstack harness.",
+        note="Bounds: 2 streams x <= 3 packs, skew in {0,+1ms,+1s,-0.5s}, <= 2 deviations (3 thorough). The overtake defect (a pack computed earlier but enqueued later) is a recorded known finding; the resume part judges the C05 full-stack scenarios (hand-written and generated) by the time clauses over what the downstream accepted per channel across incarnations: after a crash or an injected failure the floor is the closing tick of the checkpointed packs, in an undisturbed history (manual pause / resume) it is the last accepted tick.",
         parts=[part("time", "core", "reader", "TestVerifC03Time", shards=(12, 16), budget=(150, 900), gomaxprocs=1),
                part("resume", "server", ".", "TestVerifC03Resume", shards=(16, 16), budget=(150, 1200), gomaxprocs=1)],
     ),
@@ -109,7 +109,7 @@ CHECKS = {
         level="exploration", engine="sched",
         technique="stateless DFS over goroutine schedules (deviation-bounded) of the real channel manager and its barriers for every drop / stop / restart scenario",
         text="Drop-collection and drop-partition scripts over 1-3 shards, partition registration racing stream registration, stop with and without a half-completed drop, and restarts with objects already dropped upstream are executed on the real channel manager under every schedule within the deviation bound; the drop requests observed on the event channel are counted, attributed and placed in time against the per-shard delivery progress.",
-        note="Bounds: <= 2 shards (3 thorough), <= 2 deviations (3 thorough; 1 for the heaviest scenarios). After a drop the scripts address the dropped object no more (a source never does). Pause and resume on the same channel manager after a replayed drop (partition / collection; downstream has applied the request or still lists the object) must not produce a second request.",
+        note="Bounds: <= 2 shards (3 thorough), <= 2 deviations (3 thorough; 1 for the heaviest scenarios). After a drop the scripts address the dropped object no more (a source never does). Pause and resume on the same channel manager after a replayed drop (partition / collection; downstream has applied the request or still lists the object) must not produce a second request; a resume from the start of the logs racing the announcement of a partition (strict cost model, 3 deviations) must still wait for every shard.",
         parts=[part("drop", "core", "reader", "TestVerifC04Drop", shards=(12, 16), budget=(150, 900), gomaxprocs=1),
                part("race", "core", "reader", "TestVerifC04Drop", shards=(4, 8), budget=(60, 300), race=True)],
     ),
@@ -117,7 +117,7 @@ CHECKS = {
         level="exploration", engine="sched",
         technique="stateless DFS over goroutine schedules (deviation-bounded) with catalog writes placed at every step of the real reader start-up over an in-memory etcd",
         text="The real CollectionReader.StartRead and EtcdOp (watchers, event pool) run over fakeetcd; for every scenario the catalog writes are placed at every decision point among the reader's etcd calls and all schedules within the deviation bound are executed; at quiescence the recorded StartReadCollection / AddPartition / AddDropped* calls are compared with the catalog model.",
-        note="Bounds: <= 4 catalog writes per scenario, <= 2 further deviations (3 thorough), two databases. The listing part runs StartRead on every catalog reachable by a history of <= 8 (10) catalog operations (any number of incarnations of a name, in any state, with partitions under old and new ones). Duplicate notifications at the real channel manager (collection / partition announced twice, concurrently and one after the other) are the 'duplicates' part. fakeetcd models Get/prefix/Watch-with-prev-kv semantics; thorough conformance against embedded etcd is a separate part.",
+        note="Bounds: <= 4 catalog writes per scenario, <= 2 further deviations (3 thorough), two databases. The listing part runs StartRead on every catalog reachable by a history of <= 8 (10) catalog operations (any number of incarnations of a name, in any state, with partitions under old and new ones). Duplicate notifications at the real channel manager (collection / partition announced twice, concurrently and one after the other) are the 'duplicates' part. The fullstack part judges the C05 / C06 full-stack scenarios (task start = create, resume, restart; collections created while the task runs; a connectivity check refused at the start) by: a task that is Running at a quiescent point has a live source subscription for every shard of every collection it selects. fakeetcd models Get/prefix/Watch-with-prev-kv semantics; thorough conformance against embedded etcd is a separate part.",
         parts=[part("start", "core", "reader", "TestVerifC13Start", shards=(12, 16), budget=(150, 900), gomaxprocs=1),
                part("lookup", "core", "reader", "TestVerifC13Lookup", shards=(4, 8), budget=(120, 600)),
                part("listing", "core", "reader", "TestVerifC13Listing", shards=(12, 16), budget=(150, 900), gomaxprocs=1),
@@ -128,7 +128,7 @@ CHECKS = {
         level="model_checking", engine="seq",
         technique="explicit-state BFS over create/delete/failed-create/restart histories on the real MetaCDC with invariant + differential (fresh reload) oracle in every state",
         text="Every history of create (13 specification shapes), create with a store fault at the n-th call, delete and restart up to the depth bound is replayed on a fresh real MetaCDC (real etcd stores over fakeetcd); in every reached state the selections made by the real data-path and DDL-path functions are evaluated for a 3x3 universe of (database, collection) pairs against a reference, rejected requests must leave bookkeeping and store byte-identical, and the live bookkeeping must equal a fresh reload of the same store.",
-        note="Bounded: depth 4 (6 thorough), one target, <= 3 tasks, universe {default, db1, db2} x {a, b, c}. The replication entity is the light one (recording channel manager); connectivity probe skipped through the verif hook.",
+        note="Bounded: depth 4 (6 thorough), one target, <= 3 tasks, universe {default, db1, db2} x {a, b, c}; 15 specification shapes (with user-role flag, name mapping, auto start disabled), pause(task) as an operation. The replication entity is the light one (recording channel manager); connectivity probe skipped through the verif hook.",
         parts=[part("tasks", "server", ".", "TestVerifC10Tasks", shards=(16, 16), budget=(150, 1200))],
     ),
     "C19": dict(
@@ -159,7 +159,7 @@ CHECKS = {
         level="model_checking", engine="seq",
         technique="explicit-state BFS over store operation histories on both real backends (etcd stores over fakeetcd, MySQL stores over fakesql) with full-dump frame-condition oracle and fault enumeration over DeleteTask round trips",
         text="The real etcd and MySQL metadata stores, driven through the real meta_op.go functions, share one backend between several root paths; every operation history up to the depth bound over prefix-sharing and pattern-character identifiers is executed and the full backend dump is diffed after every operation (only the addressed record may change; inside a checkpoint only the addressed channel; dropped entries never; reads return own records only); DeleteTask is run with a failure injected at every backend round trip and must be all-or-nothing.",
-        note="fakesql implements exactly the statement shapes of mysql.go (unknown SQL is an error), LIKE with % and _, binary string comparison (MySQL's case-insensitive default collation is not modelled: the check demands less). fakeetcd is a model of etcd Get/Put/Delete/Txn; conformance against embedded etcd is a thorough-tier part.",
+        note="Families: prefix-sharing ids, task ids with SQL pattern characters (t_1 / tx1 / t% / t%2), four tenants on one backend, delete faults. fakesql implements exactly the statement shapes of mysql.go (unknown SQL is an error), LIKE with % and _, binary string comparison (MySQL's case-insensitive default collation is not modelled: the check demands less). fakeetcd is a model of etcd Get/Put/Delete/Txn; conformance against embedded etcd is a thorough-tier part.",
         parts=[part("isolation", "server", "store", "TestVerifC12Isolation", shards=(8, 16), budget=(150, 900)),
                part("etcd-conformance", "core", "verifkit/fakeetcd", "TestVerifEtcdConformance", shards=(4, 16), budget=(150, 900))],
     ),
@@ -167,7 +167,7 @@ CHECKS = {
         level="fault_enumeration", engine="sched",
         technique="stateless DFS over goroutine schedules x crash points x fault answers (deviation-bounded) of the real full stack inside synctest bubbles, with restart on the same durable fakes",
         text="The real MetaCDC with real channel manager, readers, writer, batcher and etcd stores runs over in-memory source logs, downstream and store; every crash point before/after each visible step (downstream acknowledgement, checkpoint write), every single write/store failure and a manual pause are placed at every position of every schedule within the deviation bound; a new incarnation restarts from the persisted state; the event log is checked for checkpoints that run ahead of acknowledgements, gaps, changed dropped checkpoints and rows never delivered.",
-        note="Bounds: <= 2 collections x <= 2 shards, scripts <= 6 packs, batch sizes 1..3, one crash and one fault per execution (two thorough), deviation bound 1 (2 thorough). Source seek semantics are fakemq's model of MqTtMsgStream.Seek; 'latest' = everything delivered so far.",
+        note="Bounds: <= 2 collections x <= 2 shards, hand-written scenarios with scripts <= 6 packs, batch sizes 1..3, deviation bound 2 (3 thorough). Generated family: every one-stream script of <= 3 packs over {ins, del, ins+del, tick-only, ins above the batcher's size threshold} x {same ms, +1 ms, +10 ms} (and scripts of 4-5 packs over {ins, tick-only} for batch sizes 3, 4) x batch size 1..3 x {crash before/after, write failure, store failure, manual pause} at every visible step, one deviation (two thorough). Collections created through the create-collection event (created upstream while the task runs, or absent downstream at task start) are part of the hand-written scenarios. Source seek semantics are fakemq's model of MqTtMsgStream.Seek; 'latest' = everything delivered so far.",
         parts=[part("resume", "server", ".", "TestVerifC05Resume", shards=(16, 16), budget=(150, 1200), gomaxprocs=1),
                part("mq-conformance", "core", "verifkit/fakemq", "TestVerifMqConformance", shards=(12, 16), budget=(150, 900))],
     ),
@@ -175,7 +175,7 @@ CHECKS = {
         level="fault_enumeration", engine="sched",
         technique="stateless DFS over goroutine schedules x failure positions (deviation-bounded) of the real full stack inside synctest bubbles",
         text="For every failure class (downstream rejects a write once or repeatedly, store rejects a checkpoint, two failures, downstream rejects a drop, message for a partition unknown downstream) and task layout (1 task, 2 tasks on one target, 2 tasks on two targets) the failure is placed at every visible step of every schedule within the deviation bound on the real full stack; at every quiescent point the owning task must be Paused with a reason (memory, list API, store), other tasks unchanged, nothing of the failed stream acknowledged past the failed pack, and after resume the failed message is delivered; a panic kills the worker and is attributed to the execution.",
-        note="Bounds: scripts of 3-4 packs, one failure per execution (two in the reject-two class), deviation bound 1 (2 thorough). Two-task layouts also run a second task's own failure after the first task's (doubly reported) failure.",
+        note="Bounds: scripts of 3-5 packs, one failure per execution (two in the reject-two class), deviation bound 2 (3 thorough). Failure classes also cover: a rejected pack in the middle of a batch (batch sizes 2, 3), the create request / the start positions of a collection created while the task runs being refused, the connectivity check of a new channel handler refused at the task's start (scripted: the n-th check). Two-task layouts also run a second task's own failure after the first task's (doubly reported) failure.",
         parts=[part("failure", "server", ".", "TestVerifC06Failure", shards=(16, 16), budget=(150, 1200), gomaxprocs=1)],
     ),
 }
